@@ -12,7 +12,7 @@ say() { echo "$@" | tee -a "$log"; }
 cd "$d" || exit 2
 git checkout -- src 2>/dev/null
 git apply "$out/patch.diff" || { say "PATCH DOES NOT APPLY"; exit 2; }
-build() { for i in 1 2 3; do seedns "$d" ninja -C /seedwt/_build -j${JOBS:-8} >/tmp/lead/confirm_build.log 2>&1 && return 0; done; return 1; }
+build() { for i in 1 2 3; do seedns "$d" ninja -C /seedwt/_build -j${JOBS:-8} >/tmp/lead/confirm_build.$$.log 2>&1 && return 0; done; return 1; }
 build || { say "BUILD FAILED with patch"; git checkout -- src; exit 2; }
 say "build with patch: ok"
 t=$(seedns "$d" ctest --test-dir /seedwt/_build -j6 --timeout 900 2>&1 | tail -15)
@@ -27,12 +27,16 @@ for f in $failed; do
 done
 say "failed again when re-run alone (3 tries):${still:- none}"
 # demonstration with the patch
-withrc=""; for i in 1 2 3; do (cd "$out" && timeout 1200 sh ./run.sh >>"$log.demo_with" 2>&1); withrc="$withrc $?"; done
-say "demo WITH patch, 3 runs, exit codes:$withrc"
+# a run counts as failed if run.sh exits non-zero OR reports failed runs / a sanitizer report in its output
+sig() { grep -Eq "failed=[1-9]|ERROR: AddressSanitizer|WARNING: ThreadSanitizer|FAILED [1-9]|FAIL:" "$1" && echo 1 || echo 0; }
+withrc=""; for i in 1 2; do (cd "$out" && timeout 1800 bash ./run.sh >"$log.demo_with.$i" 2>&1); rc=$?; [ $rc = 0 ] && [ "$(sig "$log.demo_with.$i")" = 1 ] && rc=1000; withrc="$withrc $rc"; cat "$log.demo_with.$i" >> "$log.demo_with"; rm -f "$log.demo_with.$i"; done
+say "demo WITH patch, 2 runs, exit codes (1000 = exit 0 but failures reported in output):$withrc"
 git checkout -- src
-build || { say "BUILD FAILED after revert"; exit 2; }
-worc=""; for i in 1 2 3; do (cd "$out" && timeout 1200 sh ./run.sh >>"$log.demo_without" 2>&1); worc="$worc $?"; done
-say "demo WITHOUT patch, 3 runs, exit codes:$worc"
+# without the patch only the library has to be current for the demonstration (the test binaries are not used)
+buildlib() { for i in 1 2 3; do seedns "$d" ninja -C /seedwt/_build -j${JOBS:-8} babylon >/tmp/lead/confirm_build.$$.log 2>&1 && return 0; done; return 1; }
+buildlib || { say "BUILD FAILED after revert"; exit 2; }
+worc=""; for i in 1 2; do (cd "$out" && timeout 1800 bash ./run.sh >"$log.demo_without.$i" 2>&1); rc=$?; [ $rc = 0 ] && [ "$(sig "$log.demo_without.$i")" = 1 ] && rc=1000; worc="$worc $rc"; cat "$log.demo_without.$i" >> "$log.demo_without"; rm -f "$log.demo_without.$i"; done
+say "demo WITHOUT patch, 2 runs, exit codes:$worc"
 cp "$out"/patch.diff "$out"/README.md "$out"/run.sh "$dest"/ 2>/dev/null
 cp "$out"/demo* "$out"/*.cpp "$out"/*.cc "$dest"/ 2>/dev/null
 rm -f "$dest"/demo  # binaries are not kept
